@@ -59,6 +59,10 @@ def case_strategy(draw):
     cfg = dict(ns=ns, nsp=draw(st.booleans()), ere=draw(st.booleans()))
     if d.doctype: scanner = draw(st.sampled_from(['IG', 'IG', 'DG']))
     else: scanner = draw(st.sampled_from(['IG', 'WF', 'DG', 'SG']))
+    if scanner == 'SG':
+        # SGXMLScanner is namespace-aware by definition: scanReset() forces fDoNamespaces=true whatever the
+        # feature says, so "namespaces off" is not a configuration of that scanner (triaged false alarm).
+        cfg['ns'] = True
     enc = draw(st.sampled_from(['utf-8', 'utf-8', 'utf-8-bom', 'utf-16le-bom', 'utf-16be-bom']))
     chunks = draw(st.sampled_from(['', '', '1', '2,3', '7', '1,4096', '5,1,1']))
     return d, api, cfg, scanner, enc, chunks
@@ -72,7 +76,7 @@ def build_case(d, api, cfg, scanner, enc, chunks):
     fbytes = {k: v.replace('@ENC@', 'UTF-8').encode('utf-8') for k, v in files.items()}
     case = {'api': api, 'feat': feat, 'level': level, 'ns': cfg['ns'], 'ere': cfg['ere'], 'nsp': cfg['nsp'], 'chunks': chunks,
             'doc_b64': base64.b64encode(data).decode(), 'files_b64': {k: base64.b64encode(v).decode() for k, v in fbytes.items()},
-            'expected': exp, 'lines': True, 'chunk1': xm.safe_first_read(data), 'version': d.version, 'doc_preview': text[:400]}
+            'expected': exp, 'lines': True, 'chunk1': xm.safe_first_read(data), 'version': d.version, 'doc_preview': text[:400], 'model_debug': xm.debug_repr(d)[:3000]}
     return case, full, text, files, data, fbytes
 
 def run_case(case, ex):
@@ -144,5 +148,18 @@ def strip_lines(evs):
         else: out.append(e)
     return out
 
+def run_raw(case, ex):
+    """regression case in raw form: document + configuration + the exact expected CED text"""
+    req = {'kind': 'parse', 'api': case['api'], 'feat': case['feat'], 'doc': base64.b64decode(case['doc_b64']), 'loc': str(case.get('loc', 1))}
+    try:
+        resp = ex.request(req)
+    except xv.ExecutorDied as e:
+        return False, 'executor died rc=%s\n%s' % (e.rc, e.stderr[-3000:])
+    got = [l for l in resp.split('\n') if l and not l.startswith('#')]
+    if got != case['raw_expect']:
+        return False, 'CED differs from the recorded expectation:\n expected %r\n actual   %r' % (case['raw_expect'], got)
+    return True, 'ok'
+
 def replay(case, ctx):
+    if 'raw_expect' in case: return run_raw(case, ctx.executor('xvexec'))
     return run_case(case, ctx.executor('xvexec'))
